@@ -427,7 +427,9 @@ class ASTVisitor:
     ) -> _ast.InputValueDefinition:
         definition.type = self._visit_type(definition.type)
         if definition.default_value is not None:
-            self._visit_input_value(definition.default_value)
+            definition.default_value = self._visit_input_value(
+                definition.default_value
+            )
         definition.directives = map_and_filter(
             self._visit_directive, definition.directives
         )
